@@ -130,8 +130,12 @@ def classify(ctx, verdicts, runner, findings, prop):
     for r in verdicts["rej"]:
         tags = r.get("tags", [])
         if "SYNC" in tags or "HOOK" in tags:
-            c = byid.get(r["id"])
-            raise Machinery("trace/model out of sync: %s\nsource:\n%s" % (json.dumps(r), c["src"][:600] if c else "?"))
+            # gosk parsed a different program than the one that was rendered (SYNC), or the bytes its code generator produced
+            # are not what it wrote to the file (HOOK).  On the unchanged tree neither occurs (the renderer and the hooks are
+            # exercised by every run); on a modified tree both are wrong behaviour of gosk, so they are reported as
+            # violations of the property being checked, not as machinery failures.
+            r["tags"] = list(tags) + [prop]
+            tags = r["tags"]
         c = byid.get(r["id"])
         kf = findings.match(r, c) if findings else None
         if kf:
